@@ -239,7 +239,7 @@ theorem deepcopyStep_spec (s : LS) (r : SRef) :
       rw [h2]
       simp only [absStore, Prod.mk.injEq, true_and]
       unfold absStep LS.step LS.reach
-      simp [hr]
+      simp
     · intro rr h
       simp only [LS.step] at hr
       simp [LS.step, hr] at h
@@ -255,7 +255,7 @@ theorem deepcopyStep_spec (s : LS) (r : SRef) :
       constructor
       · simp [absStore]
       · unfold absStep LS.step LS.reach
-        simp [hr]
+        simp
     · intro rr h
       simp [LS.step] at h
       subst h
@@ -360,7 +360,7 @@ theorem storeNewReach_reach_new (s1 : LS) (t : SRef) (l : LRef) :
   unfold LS.reach; rw [storeNewReach_reachD]; simp
 
 theorem storeNewReach_sim {ms mr lo : Nat} {s1 : LS} {acc : Dict} (n : String) (t : Nat) (l : LRef)
-    (hms : ms ≤ s1.stepD.length) (hmr : mr ≤ s1.reachD.length) (hlo : lo ≤ s1.exprL.length)
+    (_hms : ms ≤ s1.stepD.length) (hmr : mr ≤ s1.reachD.length) (hlo : lo ≤ s1.exprL.length)
     (hnd : (dKeys acc).Nodup) (hfr : AccFresh ms mr s1 acc) (hg : dGet acc n = some t)
     (hti : (s1.step t).reaches = none) :
     absStore (storeNewReach s1 t l) = absStore s1 ++ [(absStore s1).read l] ∧
@@ -776,5 +776,41 @@ theorem runLookups_spec (bs br bl : Nat) (qs : List String) : ∀ (s : LS), Spec
     refine ⟨s', acc1 :: answers, ?_, ?_, F1.trans (F2.weaken F1.step_len F1.reach_len F1.list_len)⟩
     · simp only [runLookups, e1, e2]
     · rw [List.map_cons, List.map_cons, v2, hL1, absAnswer_frame f1 i1 F2, v1]
+
+/-! ## The code before the fix 35ae67d, for comparison (hand-written, *not* generated)
+
+`mergePy` with the last branch as it was before the fix: the new `reaches` dictionary holds the child's own list
+object (`'stepExpressions': step['reaches']['stepExpressions']`).  `PropsGen/C03.lean` shows on a concrete heap that
+the frame theorem fails for it; regenerating from a source with that line makes `attacks_eq` fail (mutation M1). -/
+
+def mergePyAliasing (st : LS × Dict) (step : SRef) : LS × Dict :=
+  match Py.dictGet st.2 (st.1.step step).name with
+  | none =>
+    ((LSpec.deepcopyStep st.1 step).1, Py.dictSet st.2 ((LSpec.deepcopyStep st.1 step).1.step step).name (LSpec.deepcopyStep st.1 step).2)
+  | some t =>
+    match (st.1.step step).reaches with
+    | none => st
+    | some rr =>
+      if (st.1.reach rr).overrides then
+        ((LSpec.deepcopyStep st.1 step).1, Py.dictSet st.2 ((LSpec.deepcopyStep st.1 step).1.step step).name (LSpec.deepcopyStep st.1 step).2)
+      else
+        match (st.1.step t).reaches with
+        | some ir => (st.1.extendList (st.1.reach ir).stepExpressions (st.1.reach rr).stepExpressions, st.2)
+        | none =>
+          let r6 := st.1.allocReach { overrides := false, stepExpressions := (st.1.reach rr).stepExpressions }
+          (r6.1.setStep t { r6.1.step t with reaches := some r6.2 }, st.2)
+
+def attacksPyAliasing : Nat → LS → String → Except PyErr (LS × Dict)
+  | 0, _, _ => .error .recursionError
+  | f + 1, s, t =>
+    match s.assets.find? (fun a => a.name == t) with
+    | none => .ok (s, [])
+    | some a =>
+      match pyTruthyStr a.superAsset with
+      | some p =>
+        match attacksPyAliasing f s p with
+        | .ok up => .ok (a.attackSteps.foldl mergePyAliasing up)
+        | .error e => .error e
+      | none => .ok (a.attackSteps.foldl mergePyAliasing (s, []))
 
 end MalVerif.Py.TieLang
